@@ -48,6 +48,86 @@ Theorem C16_excess_missing_deser_value : forall d db cells,
   gen_deser_value_by_name d db cells <> Err EPanic.
 Proof. exact deser_value_by_name_doc. Qed.
 
+(* ---- rows (SerializeRow with flatten, DeserializeRow) ---------------------------------- *)
+
+(* [rdesc_wf d]: the column names of all (transitively flattened) leaves are pairwise different and
+   no flattened struct is empty *)
+Theorem C16_by_name_ser_row : forall d cols, rdesc_wf d = true ->
+  Permutation (map fst cols) (map rl_name (rd_leaves d)) ->
+  (forall c l, In c cols -> lfind (fst c) (rd_leaves d) = Some l -> accepts (rl_ty l) (snd c) = true) ->
+  gen_ser_row_by_name d cols = Ok (map (fun c => rvalue_of (rd_leaves d) (fst c)) cols).
+Proof. exact by_name_ser_row. Qed.
+
+Theorem C16_roundtrip_row : forall d ls cols cells, rdesc_wf d = true ->
+  leaves_only (rd_fields d) = Some ls ->
+  forallb (fun l => val_ok (rl_ty l) (rl_val l)) ls = true ->
+  gen_ser_row_by_name d cols = Ok cells -> gen_typeck_row_by_name ls cols = Ok tt ->
+  gen_deser_row_by_name ls cols cells = Ok (map rback_value ls).
+Proof. exact roundtrip_row_by_name. Qed.
+
+Theorem C16_excess_missing_ser_row : forall d cols, rdesc_wf d = true ->
+  outcome_of (gen_ser_row_by_name d cols) = doc_ser_row_by_name d cols /\
+  gen_ser_row_by_name d cols <> Err EPanic.
+Proof. exact ser_row_by_name_doc. Qed.
+
+Theorem C16_excess_missing_typeck_row : forall ls cols,
+  NoDup (map rl_name (filter (fun f => negb (rl_skip f)) ls)) ->
+  (gen_typeck_row_by_name ls cols = Ok tt <-> doc_typeck_row_by_name ls cols = true) /\
+  gen_typeck_row_by_name ls cols <> Err EPanic.
+Proof. exact typeck_row_by_name_doc. Qed.
+
+Theorem C16_excess_missing_deser_row : forall ls cols cells,
+  NoDup (map rl_name (filter (fun f => negb (rl_skip f)) ls)) ->
+  List.length cells = List.length cols ->
+  doc_typeck_row_by_name ls cols = true ->
+  outcome_of (gen_deser_row_by_name ls cols cells) =
+    match all_some (map (fun f => doc_row_field_value f (combine cols cells)) ls) with
+    | Some vs => Accept vs
+    | None => Reject
+    end /\
+  gen_deser_row_by_name ls cols cells <> Err EPanic.
+Proof. exact deser_row_by_name_doc. Qed.
+
+(* ---- enforce_order ---------------------------------------------------------------------- *)
+
+(* with names checked and no allow_missing field ([vordered_plain]) the ordered flavor accepts
+   exactly the declared order: the DB fields must start with the struct's fields, in order, with
+   accepted types; anything after them only without forbid_excess_udt_fields *)
+Theorem C16_ordered_typeck_value : forall d db, vordered_plain d = true ->
+  (gen_typeck_value_ordered d db = Ok tt <->
+   exists p rest, db = p ++ rest /\ map fst p = map vf_name (nonskipped (vd_fields d)) /\
+                  (vd_forbid d = true -> rest = []) /\
+                  forallb acc_pair (combine (nonskipped (vd_fields d)) p) = true).
+Proof. exact ordered_exact_value. Qed.
+
+Theorem C16_ordered_ser_value : forall d db, vordered_plain d = true ->
+  outcome_of (gen_ser_value_ordered d db) = doc_ser_value_ordered d db.
+Proof. exact ser_value_ordered_doc. Qed.
+
+Theorem C16_ordered_typeck_row : forall ls cols,
+  (gen_typeck_row_ordered false ls cols = Ok tt <->
+   map fst cols = map rl_name (filter (fun f => negb (rl_skip f)) ls) /\
+   forallb racc_pair (combine (filter (fun f => negb (rl_skip f)) ls) cols) = true).
+Proof. exact ordered_exact_row. Qed.
+
+Theorem C16_ordered_ser_row : forall d cols, rordered_plain d = true ->
+  outcome_of (gen_ser_row_ordered d cols) = doc_ser_row_ordered d cols.
+Proof. exact ser_row_ordered_doc. Qed.
+
+(* round trip in the ordered flavor, for EVERY descriptor (allow_missing and skip_name_checks
+   included): every field comes back as its value, or as Default if it is skipped or was an
+   allow_missing field the DB type did not supply at its position *)
+Theorem C16_roundtrip_ordered_value : forall d db cells, vvals_ok d = true ->
+  gen_ser_value_ordered d db = Ok cells ->
+  exists xs, gen_deser_value_ordered d db cells = Ok xs /\ Forall2 rt_ok (vd_fields d) xs.
+Proof. exact roundtrip_value_ordered. Qed.
+
+Theorem C16_roundtrip_ordered_row : forall d ls cols cells, leaves_only (rd_fields d) = Some ls ->
+  forallb (fun l => val_ok (rl_ty l) (rl_val l)) ls = true ->
+  gen_ser_row_ordered d cols = Ok cells ->
+  gen_deser_row_ordered (rd_snc d) ls cols cells = Ok (map rback_value ls).
+Proof. exact roundtrip_row_ordered. Qed.
+
 (* non-vacuity: a struct with an allow_missing field declared BEFORE a required one (the shape of
    finding F1), renamed, skipped and default_when_null fields *)
 Definition ex_f (id : string) (ren : option string) (sk am dwn : bool) (t : rty) (v : cell) : vfield :=
@@ -81,8 +161,48 @@ Example C16_ex_excess_missing :
   gen_ser_value_by_name ex_d []%string = Err (EValueMissingForUdtField "x"%string).
 Proof. repeat split; vm_compute; reflexivity. Qed.
 
+
+(* rows: a struct with two flattened structs (one nested), by name *)
+Definition ex_l (id : string) (ren : option string) (sk dwn : bool) (t : rty) (v : cell) : rleaf :=
+  {| rl_ident := id; rl_rename := ren; rl_skip := sk; rl_dwn := dwn; rl_ty := t; rl_val := v |}.
+Definition ex_r : rdesc :=
+  {| rd_ordered := false; rd_snc := false;
+     rd_fields := [ RLeaf (ex_l "a" None false false RInt (Some [0;0;0;1]));
+                    RFlat false false [ RLeaf (ex_l "b" (Some "y") false false RText (Some [98]));
+                                        RFlat false false [ RLeaf (ex_l "c" None false false ROptInt None) ] ];
+                    RLeaf (ex_l "s" None true false RInt (Some [0;0;0;9])) ] |}%string.
+Example C16_ex_rows : rdesc_wf ex_r = true /\
+  gen_ser_row_by_name ex_r [("c", DInt); ("a", DInt); ("y", DText)]%string = Ok [None; Some [0;0;0;1]; Some [98]] /\
+  gen_ser_row_by_name ex_r [("c", DInt); ("a", DInt)]%string = Err (ENoColumnWithName "y"%string) /\
+  gen_ser_row_by_name ex_r [("c", DInt); ("zz", DInt)]%string = Err (EValueMissingForColumn "zz"%string).
+Proof. repeat split; vm_compute; reflexivity. Qed.
+
+(* enforce_order: the declared order is accepted, a swapped one is not *)
+Definition ex_o : vdesc :=
+  {| vd_ordered := true; vd_forbid := true; vd_snc := false;
+     vd_fields := [ ex_f "a" None false false false RInt (Some [0;0;0;7]);
+                    ex_f "s" None true false false RInt (Some [0;0;0;9]);
+                    ex_f "b" None false false false RText (Some [97]) ] |}%string.
+Example C16_ex_ordered : vordered_plain ex_o = true /\ vvals_ok ex_o = true /\
+  gen_typeck_value_ordered ex_o [("a", DInt); ("b", DText)]%string = Ok tt /\
+  gen_typeck_value_ordered ex_o [("b", DText); ("a", DInt)]%string = Err (EDeFieldNameMismatch 0 "a" "b")%string /\
+  gen_typeck_value_ordered ex_o [("a", DInt); ("b", DText); ("c", DInt)]%string = Err (EExcessFieldInUdt "c")%string /\
+  gen_ser_value_ordered ex_o [("a", DInt); ("b", DText)]%string = Ok [Some [0;0;0;7]; Some [97]].
+Proof. repeat split; vm_compute; reflexivity. Qed.
+
 Print Assumptions C16_by_name_ser.
 Print Assumptions C16_roundtrip.
 Print Assumptions C16_excess_missing_ser_value.
 Print Assumptions C16_excess_missing_typeck_value.
 Print Assumptions C16_excess_missing_deser_value.
+Print Assumptions C16_by_name_ser_row.
+Print Assumptions C16_roundtrip_row.
+Print Assumptions C16_excess_missing_ser_row.
+Print Assumptions C16_excess_missing_typeck_row.
+Print Assumptions C16_excess_missing_deser_row.
+Print Assumptions C16_ordered_typeck_value.
+Print Assumptions C16_ordered_ser_value.
+Print Assumptions C16_ordered_typeck_row.
+Print Assumptions C16_ordered_ser_row.
+Print Assumptions C16_roundtrip_ordered_value.
+Print Assumptions C16_roundtrip_ordered_row.
